@@ -28,9 +28,10 @@ repairable without leaving the reference): `soundFull_fails_at_witness` — `x =
 `bound = 3`, `compare = 1.0000000000077982159505194176045364` gives `GT` after 2 iterations while
 `e^x = 1.00000000000779821595051941760453640966…`: the rounded-down upper bound lies 1.0966 ulp
 below `e^x`, so the grid point between them is misjudged. `gt_sound_partial` shows such a window is
-never wider than the stated slack. Not proved: anything for negative `x` (alternating terms, mixed
-rounding directions) and `GT` for `x > 1`; both are checked on the implementation by the harness
-oracle (rigorous 90-digit enclosure of `e^x`) on sampled inputs only.
+never wider than the stated slack. `sound_slack_partial` extends this to negative arguments: for
+`-1 ≤ x ≤ 1`, `bound ≥ 2`, BOTH verdicts are right up to the same slack. Not proved: exact soundness
+for negative `x`, and anything for `|x| > 1` beyond `lt_sound`; those are checked on the implementation
+by the harness oracle (rigorous 90-digit enclosure of `e^x`) on sampled inputs only.
 
 **Recorded deviation (repaired)**: the unrepaired tree used the SIGNED product `error * bound_x` as
 error term, so for negative `x` `upper < lower` at every other step and `GT` was returned for
@@ -126,6 +127,27 @@ theorem sound_partial (maxN : Nat) (x bound cmp : Int) (r : CmpRes) (hx : 0 ≤ 
     (r.estimation = .gt → Real.exp (toReal x) <
       toReal cmp + (3 * (r.iterations : ℝ) + 3 * (bound : ℝ)) / (P : ℝ)) :=
   ⟨lt_sound maxN x bound cmp r hx h, gt_sound_partial maxN x bound cmp r hx hx1 hb h⟩
+
+/-- **both verdicts up to the slack, either sign of `x`**: for `-1 ≤ x ≤ 1` and `bound ≥ 2`
+    `GT → e^x < compare + slack` and `LT → compare − slack < e^x`, `slack = (3·iterations + 3·bound)·10^-34`
+    (each fixed-point term is within 3 ulp of the true one; remainder by Mathlib's `Real.exp_bound`) -/
+theorem sound_slack_partial (maxN : Nat) (x bound cmp : Int) (r : CmpRes) (hx : -P ≤ x) (hx1 : x ≤ P)
+    (hb : 2 ≤ bound) (h : refExpCmp maxN x bound cmp = some r) :
+    (r.estimation = .gt → Real.exp (toReal x) <
+      toReal cmp + (3 * (r.iterations : ℝ) + 3 * (bound : ℝ)) / (P : ℝ)) ∧
+    (r.estimation = .lt →
+      toReal cmp - (3 * (r.iterations : ℝ) + 3 * (bound : ℝ)) / (P : ℝ) < Real.exp (toReal x)) := by
+  have ha := approx_eq_taylor_prefix maxN x bound cmp r h
+  obtain ⟨vg, vl⟩ := verdict_spec maxN x bound cmp r h
+  constructor
+  · intro hgt
+    obtain ⟨hk, hc⟩ := vg hgt
+    rw [ha] at hc
+    exact (verdict_slack x bound cmp hx hx1 hb r.iterations hk).1 hc
+  · intro hlt
+    obtain ⟨hk, hc, _⟩ := vl hlt
+    rw [ha] at hc
+    exact (verdict_slack x bound cmp hx hx1 hb r.iterations hk).2 hc
 
 /-! ## the full statement fails for the reference algorithm itself (known finding) -/
 
